@@ -1028,8 +1028,10 @@ def gen_layout_programs(r, n):
         frames = b"".join(rec_frame(x) for x in recs)
         d2 = b"reference content " + bytes([i % 256])
         algo2 = r.pick(L.ALGOS)
-        recs2 = recs + [(key2, L.sri_of(algo2, d2), 4242, len(d2), {"by": "reference"}, None)]
-        frames = b"".join(rec_frame(x) for x in recs2)
+        recs2 = recs + [(key2, L.sri_of(algo2, d2), 4242, len(d2), {"by": "reference", "z": [1, 2], "a": "\u00e9"}, None)]
+        # the reference writer does not have to spell JSON the way serde_json does
+        style = r.pick(["canonical", "python", "unsorted", "reordered", "spaced"])
+        frames = b"".join(rec_frame(x) for x in recs2[:-1]) + L.frame(L.record_json_styled(*recs2[-1], style))
         ops.append(f"put c1/{L.bucket_rel(key2.encode())} {hx(frames)}")
         ops.append(f"put c1/{L.content_rel(L.sri_of(algo2, d2))} {hx(d2)}")
         ref_at = len(ops)
@@ -1038,7 +1040,7 @@ def gen_layout_programs(r, n):
             ops.append(f"read {fl} c1 {hx(key2.encode())}")
         ops.append("list c1")
         progs.append(Program(f"layout{i}", ops, tags={"writes": writes, "dump": dump1, "ref_at": ref_at, "ref_rec": recs2[-1],
-                                                       "ref_data": d2}))
+                                                       "ref_data": d2, "variety": style}))
     return progs
 
 
@@ -1374,3 +1376,66 @@ def gen_hostile_state_programs(r, n):
         # those programs are judged by the panic / hang monitor only
         progs.append(Program(f"hostile-{what}", ops, model=not what.startswith("file_"), tags={"variety": what}))
     return progs
+
+
+def gen_size_matrix(r):
+    """Every writer kind x declared-size relation x chunk shape (small, deterministic matrix):
+    the shapes in which the memory-mapped writers differ from the plain ones."""
+    progs = []
+    n = 0
+    for fl in "sa":
+        for keyed in (True, False):
+            for rel in ("eq", "lt", "gt"):
+                for shape in ("one", "two", "straddle", "decreasing"):
+                    ids = G.Ids()
+                    d = r.randbytes(r.pick([10, 24, 4096 + 7]))
+                    size = {"eq": len(d), "lt": len(d) - 3, "gt": len(d) + 5}[rel]
+                    if shape == "one":
+                        chunks = [d]
+                    elif shape == "two":
+                        chunks = [d[:len(d) // 2], d[len(d) // 2:]]
+                    elif shape == "straddle":
+                        cut = max(1, min(len(d) - 1, size - 2))
+                        chunks = [d[:cut], d[cut:]]
+                    else:
+                        a = (2 * len(d)) // 3
+                        chunks = [d[:a], d[a:a + (len(d) - a) // 2], d[a + (len(d) - a) // 2:]]
+                    algo = r.pick(L.ALGOS)
+                    key = f"m{n}".encode()
+                    _, ops = w_stream(ids, fl, key if keyed else None, d, chunks, algo=algo, size=size)
+                    commit = len(ops) - 1
+                    st = sri_tok(algo, d)
+                    ops += [f"read_hash s c0 {st}", f"read_hash a c0 {st}", "dump c0/content-v2", "dump c0/tmp"]
+                    progs.append(Program(f"matrix{n}", ops, tags={"variety": (fl, keyed, rel, shape), "matrix": (rel, commit, algo, d)}))
+                    n += 1
+    return progs
+
+
+def mon_size_matrix(rr):
+    out = []
+    if "matrix" not in rr.prog.tags:
+        return out
+    rel, commit, algo, d = rr.prog.tags["matrix"]
+    if commit >= len(rr.impl):
+        return out
+    res = toks(rr.impl[commit])
+    sig = writer_sig(rr, commit)
+    sig["rel"] = rel
+    if rel == "eq":
+        if res[0] != "ok":
+            out.append(Failure("good_commit_rejected", commit, f"correctly declared size, chunks {sig.get('chunks')} -> {' '.join(res[:3])}", sig=sig))
+        for j in (commit + 1, commit + 2):
+            rd = toks(rr.impl[j])
+            if rd[0] != "ok" or unhx(rd[1]) != d:
+                out.append(Failure("readback", j, f"read by address after a correctly sized write -> {' '.join(rd[:2])[:40]}", sig=sig))
+    else:
+        if res[:2] != ["err", "size"]:
+            out.append(Failure("not_rejected", commit, f"declared size {rel} data -> {' '.join(res[:3])}", sig=sig))
+        # whatever was published under the data's address must be the data (a read must not fail its check)
+        for j in (commit + 1, commit + 2):
+            rd = toks(rr.impl[j])
+            if rd[:2] == ["err", "integrity"] or (rd[0] == "ok" and unhx(rd[1]) != d):
+                out.append(Failure("partial_or_wrong_content_file", j, "the content published by a size-mismatching write does not match its address", sig=sig))
+    if norm(rr.impl[commit + 4]) != "ok":
+        out.append(Failure("tmp_left", commit + 4, "temp file left behind", sig=sig))
+    return out
